@@ -109,12 +109,36 @@ def I5(M, h):
     return a.forall_sims(lambda s: a.forall_times(lambda x: h.NS[s][x] <= 1))
 
 
+def J(M, h):
+    """J': once a consumer c has begun a step at begun[c], every simulator p feeding it has
+    progressed so far that all its later output is due after begun[c] (C01, 'equivalently')"""
+    a = M.alg
+    return a.forall_sims(lambda c: a.forall_sims(lambda p: Implies(
+        And(M.IDd(c, p), h.BGd[c]), a.lt(h.BGv[c], a.plus(h.P[p], M.IDv(c, p))))))
+
+
+def K(M, h):
+    """every scheduled step of s lies strictly after the last step s began (C02: strictly
+    increasing, no repetition)"""
+    a = M.alg
+    return a.forall_sims(lambda s: a.forall_times(lambda x: Implies(And(h.BGd[s], h.NS[s][x] > 0), a.lt(h.BGv[s], x))))
+
+
+def BG(M, h):
+    """bookkeeping of the ghost begun[]: well-typed, not ahead of progress, equal to the step in flight"""
+    a = M.alg
+    return a.forall_sims(lambda s: And(
+        Implies(h.BGd[s], And(a.tlen(h.BGv[s]) == a.depth(s), a.t_nonneg(h.BGv[s]), a.le(h.BGv[s], h.P[s]))),
+        Implies(h.CSd[s], And(h.BGd[s], h.BGv[s] == h.CSv[s]))))
+
+
 def Inv(M, hd):
     h = H(hd)
-    return And(typing(M, h), I1(M, h), I2(M, h), I3(M, h), I4(M, h), I5(M, h))
+    return And(*[f(M, h) for f in INV_PARTS.values()])
 
 
-INV_PARTS = {"I0_typing": typing, "I1": I1, "I2": I2, "I3": I3, "I4": I4, "I5_nodup": I5}
+INV_PARTS = {"I0_typing": typing, "I1": I1, "I2": I2, "I3": I3, "I4": I4, "I5_nodup": I5, "J_inputs_ready": J,
+             "K_increasing": K, "BG_ghost": BG}
 
 
 def forall_j(M, f):
@@ -140,6 +164,7 @@ def trig_static(M):
     def edge(x, b, j):
         d = M.TRv(x, b, j)
         return Implies(M.TRd(x, b, j), And(
+            M.out_req(x),   # a connection makes the source's attribute part of its output request
             a.d_wf(d), a.d_nonneg(d), a.dpre(d) == a.depth(x), a.dlen(d) == a.depth(b),
             M.TAd(b, x), sem_le(M, M.TAv(b, x), d, a.depth(x)),
             M.IDd(b, x), sem_le(M, M.IDv(b, x), d, a.depth(x)),
@@ -219,6 +244,23 @@ class AdvanceProgress(_Sched):
         from contracts import scheduler_native as N
         return N.replay_advance_progress(m)
 
+    # ---- modular use (sim_process)
+    def call_requires(self, it, A):
+        return {"inv": Inv(it.s.sched, it.p.ghost["heap"])}
+
+    def call_effect(self, it, A, node):
+        M = it.s.sched
+        a = M.alg
+        p = it.p
+        h = p.ghost["heap"]
+        old = h["P"][A.sim]
+        new = p.fresh("progress", a.T)
+        if a.small:
+            a.time_terms.append(new)
+        h["P"] = z3.Store(h["P"], A.sim, new)
+        p.assume(And(Inv(M, h), a.le(old, new)))
+        return None
+
     def split_post(self, A, result):
         """the postcondition clause by clause (one obligation each)"""
         M, h0, h1 = self._M, self._h0, self.cur()
@@ -249,6 +291,7 @@ class ScheduleStep(_Sched):
             "typing": And(a.tlen(x) == a.depth(sim), a.t_nonneg(x)),
             "not_in_past": a.le(h.P[sim], x),
             "descendants": a.forall_sims(lambda s: Implies(M.TAd(s, sim), a.le(h.P[s], a.plus(x, M.TAv(s, sim))))),
+            "after_begun": Implies(h.BGd[sim], a.lt(h.BGv[sim], x)),
             "inv": Inv(M, hd),
         }
 
@@ -337,25 +380,46 @@ class NotifyDependencies(_Sched):
         M = mk.s.sched
         return {"sim": mk.const("sim", M.alg.Sim)}
 
-    def requires(self, A):
-        M, h0 = self._M, self._h0
-        a, h, sim = M.alg, H(self._h0), A.sim
+    @staticmethod
+    def pre_clauses(M, hd, sim):
+        a, h = M.alg, H(hd)
         t = h.LS[sim]
-        return And(
-            static_ok(M), trig_static(M), Inv(M, h0), not_rt(M),
-            Not(h.CSd[sim]),                                         # the step is done
-            a.tlen(t) == a.depth(sim), a.t_nonneg(t),
-            a.tlen(h.OT[sim]) == a.depth(sim), a.t_nonneg(h.OT[sim]),
-            a.le(t, h.OT[sim]),                                      # validated by get_outputs (C13)
+        return {
+            "step_done": Not(h.CSd[sim]),
+            "last_step_typed": And(a.tlen(t) == a.depth(sim), a.t_nonneg(t)),
+            # if the simulator has connected outputs, get_outputs has run for this step and validated the time (C13)
+            "output_time_valid": Implies(M.out_req(sim), And(a.tlen(h.OT[sim]) == a.depth(sim), a.t_nonneg(h.OT[sim]),
+                                                             a.le(t, h.OT[sim]))),
+            "progress_at_step": h.P[sim] == t,          # I2 held until current_step was cleared
             # what I3 said about the step t of `sim` while it was in flight (progress has not moved since)
-            a.forall_sims(lambda s: Implies(M.TAd(s, sim), a.le(h.P[s], a.plus(t, M.TAv(s, sim))))),
-        )
+            "descendants_bounded": a.forall_sims(lambda s: Implies(M.TAd(s, sim), a.le(h.P[s], a.plus(t, M.TAv(s, sim))))),
+            "inv": Inv(M, hd),
+        }
+
+    def requires(self, A):
+        M = self._M
+        return And(static_ok(M), trig_static(M), not_rt(M), *self.pre_clauses(M, self._h0, A.sim).values())
+
+    # ---- modular use (sim_process)
+    def call_requires(self, it, A):
+        return self.pre_clauses(it.s.sched, it.p.ghost["heap"], A.sim)
+
+    def call_effect(self, it, A, node):
+        M = it.s.sched
+        a = M.alg
+        p = it.p
+        old = dict(p.ghost["heap"])
+        M.havoc_heap(p, ["NS", "newer"], "nd")
+        h = p.ghost["heap"]
+        p.assume(And(Inv(M, h), a.forall_sims(lambda s: a.forall_times(lambda x: h["NS"][s][x] >= old["NS"][s][x]))))
+        return None
 
     def _loop_inv(self, index, v, A):
         M, h0, h1 = self._M, self._h0, self.cur()
         a = M.alg
-        grows = a.forall_sims(lambda s: a.forall_times(lambda x: h1["NS"][s][x] >= h0["NS"][s][x]))
-        return And(Inv(M, h1), grows)
+        out = {k: f(M, H(h1)) for k, f in INV_PARTS.items()}
+        out["only_adds"] = a.forall_sims(lambda s: a.forall_times(lambda x: h1["NS"][s][x] >= h0["NS"][s][x]))
+        return out
 
     loops = {0: lambda c, index, v, A: c._loop_inv(index, v, A), 1: lambda c, index, v, A: c._loop_inv(index, v, A)}
 
